@@ -25,6 +25,12 @@ func (a AnteDecoratorStakingCommission) AnteHandle(
 	return next(ctx, tx, simulate)
 }
 
+// CheckStakingCommission enforces the maximum validator commission on the given
+// messages and on the messages nested inside of authz "MsgExec" messages, at any
+// depth. Exported for message dispatchers that do not run the ante handler (for
+// example the wasm message handler).
+func CheckStakingCommission(msgs []sdk.Msg) error { return checkCommission(msgs) }
+
 // checkCommission enforces the maximum commission on the given messages and on
 // the messages nested inside of authz "MsgExec" messages, at any depth.
 func checkCommission(msgs []sdk.Msg) error {
